@@ -9,6 +9,20 @@
 
 SMOOTH_BEGIN_NAMESPACE
 
+#ifdef SMOOTH_VERIF
+/// @brief Verification hook (only with -DSMOOTH_VERIF): called with the name of a numerical fallback that is about to
+/// be taken. Null by default.
+inline void (*verif_event_hook)(const char *) = nullptr;
+#define SMOOTH_VERIF_EVENT(name)                                     \
+  do {                                                               \
+    if (verif_event_hook != nullptr) { verif_event_hook(name); }     \
+  } while (false)
+#else
+#define SMOOTH_VERIF_EVENT(name) \
+  do {                           \
+  } while (false)
+#endif
+
 Spline<2, double> reparameterize_spline(
   const SplineLike auto & spline,
   const auto & vel_min,
@@ -110,9 +124,12 @@ Spline<2, double> reparameterize_spline(
     const auto [v2opt, aopt, status] = lp2d::solve(-1, 0, ineq);
 
     if (status == lp2d::Status::Optimal) {
+      if (v2opt < 0) { SMOOTH_VERIF_EVENT("reparam.lp"); }
       v2max(i) = v2opt;
     } else if (status == lp2d::Status::DualInfeasible) {
       v2max(i) = inf;
+    } else {
+      SMOOTH_VERIF_EVENT("reparam.lp");
     }
   }
 
@@ -149,6 +166,9 @@ Spline<2, double> reparameterize_spline(
       return local_ret;
     }();
 
+    if (ai == inf) { SMOOTH_VERIF_EVENT("reparam.skip"); }
+    if (ai != inf && std::abs(ai) >= eps && vi2 + 2 * ds * ai < eps) { SMOOTH_VERIF_EVENT("reparam.clamp"); }
+
     if (ai != inf) {
       const double dt = std::abs(ai) < eps ? ds / vi : (-vi + std::sqrt(std::max<double>(eps, vi2 + 2 * ds * ai))) / ai;
 
@@ -169,5 +189,7 @@ Spline<2, double> reparameterize_spline(
 
   return ret;
 }
+
+#undef SMOOTH_VERIF_EVENT
 
 SMOOTH_END_NAMESPACE
